@@ -19,6 +19,8 @@
 (*               process.collect_output();                                 *)
 (*   Redirect    the application redirects a stream to a target.           *)
 (*                                                                         *)
+(* ResumeFix / CollectFix / SepFix / EscapeFix = TRUE model the code after  *)
+(* the repairs (EscapeFix: fixes/c19_readuntil_empty_escape.patch)         *)
 (* ResumeFix / CollectFix / SepFix = TRUE model the code after the repairs *)
 (* found with this module (fixes/c19_readuntil_resume.patch,               *)
 (* fixes/c19_collect_output_resume.patch,                                  *)
